@@ -15,6 +15,25 @@ def fuzz(target, seconds, **kw):
 
 
 PROPS = {
+    "C02": {
+        "rule": "cases: inventories of 0-7 fake containers (names with/without leading slash, empty Names, aliases, images, states, "
+                "statuses, created times, 0-4 Docker labels with dots/dashes/slashes/blanks/leading digits/multi-byte keys) x a "
+                "selector of 0-3 matchers over built-in labels, sanitised Docker labels and absent labels with all four operators "
+                "(values from the inventory, near misses, empty, regexes incl. ones matching only a proper substring and .*/.+) x "
+                "a nanosecond-granular time range between 2001 and 2200, as a log query or inside count_over_time with range/"
+                "offset (range and instant); oracle: reference selection (absent label = empty string, anchored regex) must equal "
+                "the set of containers that received a ContainerLogs call, every returned line must carry exactly its "
+                "container's label map, the daemon must be asked with stdout+stderr+timestamps, no follow, since/until = "
+                "floor(start)/floor(end) (metric queries: a window covering [start-o-r, end-o] to the second, at most the 30s "
+                "instant lookback wider); non-trivial = >=2 containers with a proper non-empty selection, or a matcher on an "
+                "absent label; distinct by case hash",
+        "assumptions": [
+            "Docker label keys whose sanitised form collides with another key of the container or with a built-in name are not generated",
+            "reserved words are not used as label names",
+        ],
+        "quick": [rapid("TestC02", 1200)],
+        "thorough": [rapid("TestC02", 5000, shards=16, timeout=2400)],
+    },
     "C12": {
         "rule": "cases: two vectors over the same generated records (same expression, same grouping over another function, "
                 "independent sides, optionally restricted by a selector so that the overlap is proper; plain range aggregations or "
